@@ -834,9 +834,10 @@ def roundTrip (env : Env) (c : Config) : Option Config :=
   | some l => fromToml env l none none none
   | none => none
 
-/-- The option names on whose VALUE two configurations differ, in declaration order. -/
+/-- The printable option names (not in `tomlHidden`) on whose VALUE two configurations differ, in
+declaration order. -/
 def valueDiff (a b : Config) : List String :=
-  optionNames.filter fun k => decide ((getE a k).val ≠ (getE b k).val)
+  optionNames.filter fun k => !tomlHidden.contains k && decide ((getE a k).val ≠ (getE b k).val)
 
 /-! ## Operation sequences (for the driver's `cfg.apply` and the invariant theorems) -/
 
